@@ -18,8 +18,12 @@ FACTORS = [0.25, 0.5, 1.0, 2.0, 3.0, 2, 0.0, -1.0, float("nan")]
 
 def gen_one(r, i, tier):
     dyadic = (i % 4 != 3)
-    g = gen.G(r, dyadic=dyadic, max_depth=3 if tier == "quick" else 4, counts_tsq=(i % 7 == 0))
+    g = gen.G(r, dyadic=dyadic, max_depth=3 if tier == "quick" else 4, counts_tsq=(0.5 if i % 4 == 0 else False))
     spec = g.spec()
+    if i % 10 == 5:
+        # a transformed Count right below a container: the container must refuse to scale, too
+        spec = g.spec(kind=r.choice(["Bin", "SparselyBin", "CentrallyBin", "IrregularlyBin", "Stack", "Categorize", "Fraction"]))
+        spec["value"] = {"k": "Count", "tr": "sq"}
     cls = base.classify(spec, dyadic)
     n = r.randint(0, 8 if tier == "quick" else 20)
     s = base.small_stream(r, spec, n, gen.WEIGHTS) if dyadic else gen.stream(r, spec, n)
